@@ -203,7 +203,7 @@ fn irr(rng: &mut Rng, ctx: &mut Ctx) {
         let what = k % 5; // 0 unknown, 1 junk, 2 permute, 3 unknown+permute, 4 all
         let mut per_frame: Vec<Vec<Vec<u8>>> = r.frames.iter().map(|f| frame_events(&r, f, &pad)).collect();
         if what == 2 || what >= 3 { for f in per_frame.iter_mut() { permute_body(f, rng); } }
-        let mut body: Vec<Vec<u8>> = per_frame.into_iter().flatten().collect();
+        let mut body: Vec<Vec<u8>> = gecko_events(&r).into_iter().chain(per_frame.into_iter().flatten()).collect();
         if what == 0 || what >= 3 {
             let ncodes = 1 + (rng.next() % 3) as usize; let mut codes: Vec<(u8, u16)> = vec![];
             while codes.len() < ncodes { let c = [0x11u8, 0x34, 0x3E, 0x3F, 0x0F, 0x00, 0xFF, 0x7B, 0x55, 0x7D][(rng.next() % 10) as usize]; if !KNOWN.contains(&c) && !codes.iter().any(|x| x.0 == c) { codes.push((c, 1 + (rng.next() % 600) as u16)); } }
@@ -220,6 +220,13 @@ fn irr(rng: &mut Rng, ctx: &mut Ctx) {
         if l != bl { c.fail("C08", format!("game differs from the one parsed without the tolerated irregularities: {} vs {}", &l[..l.len().min(200)], &bl[..bl.len().min(200)])); if what == 2 { c.fail("C17", "permuted frame body changes the parsed game"); } }
         if let (Some(g), Some(bg)) = (&g, &bg) { if start_json(&g.start) != start_json(&bg.start) || end_json(&g.end) != end_json(&bg.end) || g.metadata != bg.metadata { c.fail("C08", "start/end/metadata differ from the regular parse"); } }
         ctx.push(c);
+        if r.end.is_some() && k % 3 == 0 {
+            let (sl, sg) = read_line(&x, true, k % 2 == 0); let (bsl, _) = read_line(&base, true, false);
+            let mut c = Case::new(format!("read 1 {} {}", (k % 2 == 0) as u8, hex(&x)), sl.clone()); c.tags = vec!["irr-skip".into()];
+            if junk.is_empty() { if sl.replace(&format!("hashed=(some {})", x.len()), "hashed=none") != bsl { c.fail("C08", "skip-frames read differs from the one without the tolerated irregularities"); }
+                if let (Some(sg), Some(g)) = (&sg, &g) { if start_json(&sg.start) != start_json(&g.start) || end_json(&sg.end) != end_json(&g.end) || sg.metadata != g.metadata { c.fail("C10", "skip-frames start/end/metadata differ from the full parse (replay with unknown events / permuted bodies)"); } } }
+            ctx.push(c);
+        }
         // C17: write, declared length, re-read, fixed point
         let mut c = Case::new(format!("rt {}", hex(&x)), String::new()); c.tags = vec!["rt-irr".into()];
         match &g { None => { c.impl_out = l.clone(); c.fail("C17", "replay with tolerated irregularities rejected"); } Some(g) => match write_slp(g) {
@@ -260,6 +267,16 @@ fn newer(rng: &mut Rng, ctx: &mut Ctx) {
             if g.metadata != bg.metadata { c.fail("C08", "metadata differs"); } }
             (None, _) => c.fail("C08", format!("newer-version replay with longer payloads rejected: {}", l)), _ => c.fail("C08", "baseline newer-version replay rejected") }
         ctx.push(c);
+        if r.end.is_some() {
+            let hash = k % 2 == 0; let (sl, sg) = read_line(&x, true, hash);
+            let mut c = Case::new(format!("read 1 {} {}", hash as u8, hex(&x)), sl.clone()); c.tags = vec!["padded-skip".into()];
+            match (&sg, &g) { (Some(sg), Some(g)) => { if start_json(&sg.start) != start_json(&g.start) || end_json(&sg.end) != end_json(&g.end) || sg.metadata != g.metadata { c.fail("C10", "skip-frames start/end/metadata differ from the full parse (newer version, longer payloads)"); }
+                    if sg.frames.id.len() != 0 { c.fail("C10", "skip-frames returned frames"); }
+                    if hash { let xx = format!("xxh3:{:016x}", xxhash_rust::xxh3::xxh3_64(&x)); if sg.hash.as_deref() != Some(xx.as_str()) { c.fail("C11", "skip-frames hash differs from XXH3-64 of the file (newer version, longer payloads)"); } } }
+                (None, Some(_)) => { c.fail("C10", format!("skip-frames read fails where the full read succeeds (newer version, longer payloads): {}", sl)); c.fail("C08", "skip-frames read of a newer-version replay with longer payloads fails"); }
+                _ => {} }
+            ctx.push(c);
+        }
     }
 }
 
